@@ -10,7 +10,7 @@ META = {
                   "pyrtcm.rtcmtables.PRNSIGMAP"],
     "transforms": ["predication of _getsatcellmaps (masks stay fully symbolic)", "if-conversion of _set_attribute_single"],
     "shims": ["int", "bin (popcount)", "chr"],
-    "bounds": {"quick": "every constellation and every MSM level at (NSat,NSig) in {(0,0),(1,1),(2,1),(1,2),(2,2)}; satellite and signal mask positions symbolic "
+    "bounds": {"quick": "every constellation and every MSM level at (NSat,NSig) in {(0,0),(1,1),(2,1),(1,2)} and four constellations (by seed) at (2,2); satellite and signal mask positions symbolic "
                         "(all C(64,k) x C(32,g) placements at once), cell mask and all other payload bits free, both label options",
                "thorough": "all 49 types x both options at <=2x2, every constellation at (3,3) for two MSM levels, (3,2)/(2,3) for all"},
     "outside": "more than 3 satellites or signals with symbolic positions (larger shapes with concrete positions are covered by C03); "
@@ -29,6 +29,8 @@ def jobs(tier, seed):
         for ci, b in enumerate(bases):
             lvl = 1 + (ci + seed) % 7
             for (k, g) in SHAPES_Q:
+                if (k, g) == (2, 2) and (ci + seed) % 7 >= 4:
+                    continue          # quick: 2x2 with symbolic positions for four constellations per run (all seven in thorough)
                 out.append((str(b + lvl), k, g, 1 + ((k + g + ci) % 2)))
         for lvl in range(1, 8):
             b = bases[(lvl + seed) % 7]
